@@ -24,7 +24,7 @@ RULE = (
     "(last row), "
     "U rejected by IsUnique (last row repeats a key of the same file), S accepted but sharing key values with "
     "every A and S sibling, E accepted by every field but with exactly the number of names for which the CID's count "
-    "rule cannot be evaluated (InterfaceError at the end of that file: exit 1), M missing path, D a directory, T a regular file named with a trailing path separator (the k-th occurrence of a kind is its k-th file, so all "
+    "rule cannot be evaluated (InterfaceError at the end of that file: exit 1), Z a file that holds the header row only, M missing path, D a directory, T a regular file named with a trailing path separator (the k-th occurrence of a kind is its k-th file, so all "
     "orders of a list name the same files) x --until in {absent, -1, 0, 3 (bad row behind the limit), 4 (bad row "
     "inside)}; the data are delimited files with one header row; the enumeration is repeated for ODS and Excel "
     "(xlsx) data files with the valid csv CID; plus 8 unusable argument lists. The CID has an IsUnique and a "
@@ -47,11 +47,11 @@ ASSUMPTIONS = [
 ]
 EXHAUSTIVE = True
 EXHAUSTIVE_SCOPE = (
-    "12 CID/data-format variants x all 585 lists of 0..3 files over 8 kinds (every order) x 5 --until settings; "
+    "12 CID/data-format variants x all 820 lists of 0..3 files over 9 kinds (every order) x 5 --until settings; "
     "8 unusable argument lists"
 )
 
-KINDS = ("A", "F", "U", "S", "E", "M", "D", "T")
+KINDS = ("A", "F", "U", "S", "E", "Z", "M", "D", "T")
 UNREADABLE_KINDS = ("M", "D", "T")
 UNTILS = ("absent", "-1", "0", "3", "4")
 SUFFIX = {"delimited": ".csv", "ods": ".ods", "excel": ".xlsx"}
@@ -67,7 +67,7 @@ HEADER_ROW = ["id", "name"]
 
 
 # -- files (built without cutplace) -----------------------------------------------------
-def cid_table(fmt, rejected=False):
+def cid_table(fmt, rejected=False, lenient=False):
     rows = [["D", "Format", {"delimited": "Delimited", "ods": "ODS", "excel": "Excel"}[fmt]], ["D", "Header", "1"]]
     if fmt == "delimited":
         rows.append(["D", "Encoding", "utf-8"])
@@ -78,7 +78,9 @@ def cid_table(fmt, rejected=False):
         # at most 4 names; for exactly 5 the rule cannot be evaluated (an error of the CID that only data bring out)
         rows.append(["C", "only a few names", "DistinctCount", "name <= 4 if count != 5 else count < None"])
         # a check that fails on a data set without rows: must not turn "cannot be read" into "rejected"
-        rows.append(["C", "at least one id", "DistinctCount", "id >= 1"])
+        # (the CIDs stored as ods / xlsx are lenient there: under them a file without data rows is an accepted file)
+        if not lenient:
+            rows.append(["C", "at least one id", "DistinctCount", "id >= 1"])
     return rows
 
 
@@ -94,6 +96,8 @@ def data_table(kind, k):
         rows = [[str(k * 10 + 6), "g%d" % k], [str(k * 10 + 7), "h%d" % k], [str(k * 10 + 6), "i%d" % k]]
     elif kind == "E":  # five names: the count rule of the CID raises at the end of this file
         rows = [[str(k * 100 + n), "n%d%d" % (k, n)] for n in range(1, 6)]
+    elif kind == "Z":  # nothing but the header row: no row is ever accepted or rejected (the API decides what that means)
+        rows = []
     elif kind == "T":  # an accepted file; it is named with a trailing separator, which no regular file can be opened by
         rows = [[str(k * 10 + 8), "t%d" % k], [str(k * 10 + 9), "v%d" % k]]
     else:
@@ -107,8 +111,8 @@ def built_verdict(kind, until):
         return "unreadable"
     if kind in ("A", "S"):
         return "accepted"
-    if kind == "E":
-        return None  # whether the count reaches 5 under a limit is for the API to say
+    if kind in ("E", "Z"):
+        return None  # whether the count reaches 5 under a limit / what a file without data rows means is for the API to say
     limit = None if until in ("absent", "-1") else int(until)
     return "rejected" if (limit is None or limit >= 4) else "accepted"
 
@@ -160,7 +164,7 @@ class Files(object):
         if name not in self._made:
             self._made.add(name)
             if state in ("valid", "rejected"):
-                write_table(path, cid_table(fmt, state == "rejected"))
+                write_table(path, cid_table(fmt, state == "rejected", lenient=container != "csv"))
             elif state == "directory":
                 os.mkdir(path)
         return path
@@ -193,15 +197,15 @@ class Files(object):
             result.append(self.data_path(kind, seen[kind], fmt))
         return result
 
-    def api_verdict(self, sub, kind, k, fmt, until):
+    def api_verdict(self, sub, kind, k, fmt, until, container="csv"):
         """Verdict of the programmatic API on a fresh Cid; None if the API failed in an undocumented way."""
         if kind in UNREADABLE_KINDS:
             return "unreadable"
-        key = (kind, k, fmt, until)
+        key = (kind, k, fmt, until, container != "csv")
         if key not in self._verdicts:
             limit = None if until in ("absent", "-1") else int(until)
             path = self.data_path(kind, k, fmt)
-            cid = cidlib.load_cid(cid_table(fmt))
+            cid = cidlib.load_cid(cid_table(fmt, lenient=container != "csv"))
             try:
                 cutplace.validate(cid, path, validate_until=limit)
                 verdict = "accepted"
@@ -321,7 +325,7 @@ def check_multiset(sub, files, variant, multiset, classes, only=None):
         verdicts = []
         for kind in sorted(multiset):
             occurrence[kind] = occurrence.get(kind, 0) + 1
-            verdicts.append((kind, files.api_verdict(sub, kind, occurrence[kind], fmt, until)))
+            verdicts.append((kind, files.api_verdict(sub, kind, occurrence[kind], fmt, until, container)))
         if any(v is None for _, v in verdicts):
             classes["skipped:api-error"] = classes.get("skipped:api-error", 0) + len(orders)
             continue
